@@ -993,6 +993,118 @@ fn check_slicing(ctx: &Ctx, stats: &Stats, lens: &[usize], fill: u8) {
     }
 }
 
+
+// ---------------------------------------------------------------- part 2d
+
+/// Compressed representations: every way of laying a name out in a message
+/// with pointers (label+pointer, bare pointer to a flat / compressed name,
+/// pointer to pointer) must yield the same valid name through every
+/// conversion of ParsedName.
+fn check_parsed(ctx: &Ctx, stats: &Stats, lens: &[usize]) {
+    use domain::base::name::ParsedName;
+    // message: 12 header octets, then the suffix names laid out so that
+    // name k = first label of suffix k + pointer to suffix k+1
+    let n = lens.len();
+    let mut msg = vec![0u8; 12];
+    let mut starts = vec![0usize; n + 1];
+    // root-most first: suffix n is the root name
+    starts[n] = msg.len();
+    msg.push(0);
+    for k in (0..n).rev() {
+        starts[k] = msg.len();
+        msg.push(lens[k] as u8);
+        msg.extend(std::iter::repeat(b'a' + (k as u8 % 20)).take(lens[k]));
+        let t = starts[k + 1];
+        msg.push(0xC0 | (t >> 8) as u8);
+        msg.push(t as u8);
+    }
+    // bare pointers: to the fully compressed name, and a pointer to that pointer
+    let bare = msg.len();
+    msg.push(0xC0 | (starts[0] >> 8) as u8);
+    msg.push(starts[0] as u8);
+    let bare2 = msg.len();
+    msg.push(0xC0 | (bare >> 8) as u8);
+    msg.push(bare as u8);
+    msg.extend_from_slice(&[0xEE, 0xEE, 0xEE]); // trailing data
+    // expected flat form
+    let mut want = Vec::new();
+    for (k, l) in lens.iter().enumerate() {
+        want.push(*l as u8);
+        want.extend(std::iter::repeat(b'a' + (k as u8 % 20)).take(*l));
+    }
+    want.push(0);
+    let too_long = want.len() > 255;
+    for (what, at) in [("label+pointer-chain", starts[0]), ("bare-pointer-to-compressed", bare), ("pointer-to-pointer", bare2)] {
+        stats.eval();
+        let case = || json!({"label_lengths": lens, "layout": what, "message": hex(&msg), "at": at});
+        let r = guard(|| {
+            let mut p = Parser::from_ref(msg.as_slice());
+            p.advance(at).unwrap();
+            let pn = match ParsedName::parse(&mut p) {
+                Ok(pn) => pn,
+                Err(e) => return Err(format!("rejected: {e}")),
+            };
+            let mut errs = Vec::new();
+            if pn.to_vec().as_slice() != want.as_slice() {
+                errs.push("to_vec".to_string());
+            }
+            let mut c = Vec::new();
+            pn.compose(&mut c).unwrap();
+            if c != want {
+                errs.push("compose".into());
+            }
+            let mut cc = Vec::new();
+            pn.compose_canonical(&mut cc).unwrap();
+            if cc != want.to_ascii_lowercase() {
+                errs.push("compose_canonical".into());
+            }
+            if usize::from(pn.compose_len()) != want.len() {
+                errs.push("compose_len".into());
+            }
+            let flat = Name::from_octets(want.clone()).map_err(|e| format!("harness: {e}"))?;
+            if pn != flat || !pn.name_eq(&flat) || flat != pn {
+                errs.push("eq-with-flat".into());
+            }
+            let cow = pn.to_cow();
+            if cow.as_slice() != want.as_slice() {
+                errs.push("to_cow".into());
+            }
+            if format!("{}", pn) != format!("{}", flat) {
+                errs.push("display".into());
+            }
+            let labels: Vec<usize> = pn.iter().map(|l| l.len()).collect();
+            let mut wl = lens.to_vec();
+            wl.push(0);
+            if labels != wl {
+                errs.push("iter".into());
+            }
+            if validate_name(&c, true).is_err() {
+                errs.push("invalid-name".into());
+            }
+            Ok(errs)
+        });
+        match r {
+            Err(p) => {
+                ctx.violation(&format!("C03|parsed|{what}|panic|{}", panic_class(&p)), &p, case());
+            }
+            Ok(Err(why)) => {
+                if !too_long {
+                    ctx.violation(&format!("C03|parsed|{what}|rejected-should-accept"), &why, case());
+                }
+            }
+            Ok(Ok(errs)) => {
+                if too_long {
+                    ctx.violation(&format!("C03|parsed|{what}|accepted-should-reject|total>255"), "a compressed name longer than 255 octets was accepted", case());
+                }
+                for e in errs {
+                    ctx.violation(&format!("C03|parsed|{what}|{e}-differs-from-the-uncompressed-name"), &format!("ParsedName::{e} of a {what} name differs from the flat name"), case());
+                }
+                stats.distinct(fnv(&msg) ^ at as u64);
+            }
+        }
+    }
+}
+
 /// chain(): all pairs of names from a total-length menu.
 fn check_chain(ctx: &Ctx, stats: &Stats) {
     let totals = [0usize, 1 + 1, 64, 126, 127, 128, 129, 190, 253, 254];
@@ -1191,7 +1303,12 @@ fn main() {
         // fill 1: label contents look like length octets (mid-label indexes look plausible)
         check_slicing(&ctx, &stats, lens, 1);
         check_slicing(&ctx, &stats, lens, b'a');
+        check_parsed(&ctx, &stats, lens);
     });
+    // compressed layouts at the length limits
+    for lens in [vec![63, 63, 63, 61], vec![63, 63, 63, 62], vec![63, 63, 63, 60, 1], vec![1; 127], vec![1; 128]] {
+        check_parsed(&ctx, &stats, &lens);
+    }
     samples.push(json!({"slicing_shapes": shapes.len(), "example_shape": [1, 63, 2], "ops": "slice/range/slice_from/range_from/split/truncate at every index pair 0..=len+1; is_label_start; parent; strip_suffix; iter_suffixes; into_relative/into_absolute"}));
     check_chain(&ctx, &stats);
 
